@@ -11,6 +11,11 @@ var commonAssumptions = []string{
 }
 
 func init() {
+	property(&Property{ID: "C17",
+		Rules: []string{"L5", "L6", "PS.map", "O6"},
+		Explanation: "Decides the locking and ordering structure of subscribe/publish/unsubscribe, not bounded-time delivery. Decided: every access to the closed flag, the failure counter and every send/close on a subscription's channel is made under the subscription's mutex, the pending batch under the publisher's mutex, the map shards under their locks (L5); sends and closes happen only when not closed and closes mark closed first, the publisher is closed exactly once from inside the map's delete callback (L6); a new subscription is registered inside the Upsert callback and the set is removed and closed only inside the Delete callback when it exists and is empty — the lost-wakeup window between the last unsubscribe and a new subscribe is closed structurally; the publisher flushes on tick and before it exits (PS.map); every request that stored changes starts the goroutine that publishes DocChanged (O6). Observation, not a violation of the schedule-only quantifier: a pull error after a successful push returns before the publish. Not decided: delivery within a bound, stalled-consumer timing.",
+		Assumptions: commonAssumptions,
+	})
 	property(&Property{ID: "C13",
 		Rules: []string{"T1", "T2", "T3", "T4"},
 		Explanation: "Decides who resolves the project, where it flows and where it filters, not the outcome of webhook-based authorisation. Decided: every call of the wrapped handler in the three service interceptors is reachable only past that service's authentication (API key → project for Yorkie, token/secret for Admin with exactly four exempt procedures, constant-time cluster secret for Cluster) (T4); in every SDK-facing handler each project component of a ref key and each projectID argument comes from the project the interceptor put in the context, never from a request field (T1); records fetched by bare id (revisions, invites — computed from the Database interface) are compared with the caller's project, and revisions also with the authorised document, before any success (T2); every memory-backend Database method with a project-scoping parameter filters by it (comparison, CheckIfInProject, index argument, stored ProjectID), with the document-id-keyed secondary tables exempt by name and their call sites checked to pass a resolved record's key (T3). Not decided: the MongoDB backend's filters (analysable but not reproducible here), per-document authorisation webhooks.",
